@@ -350,7 +350,7 @@ impl Prop for C16 {
         400
     }
     fn cases(&self, t: Tier) -> usize {
-        t.pick(80_000, 600_000)
+        t.pick(80_000, 150_000)
     }
     fn generate(&self, t: &mut Tape) -> Case {
         match t.weighted(&[94, 3, 3]) {
